@@ -339,6 +339,14 @@ class Run:
     def maps(self, comp, event):
         return event in getattr(comp, '__events__', {})
 
+    def virtual_base(self):
+        if getattr(self, '_virtual', None) is None:
+            import abc
+            self._virtual = abc.ABCMeta('VirtualBase', (), {})
+            self._virtual.register(self.classes[0])
+            self._virtual.register(self.classes[-1])
+        return self._virtual
+
     def line_budget(self):
         """lines one guarded call (process, enabling assignment) may execute inside desper: the fixed budget for
         ordinary histories plus an allowance proportional to the length of an amplified one (a release of two
@@ -1209,6 +1217,18 @@ class Run:
                 self.viol('entity_exists_differs', entity=repr(e), got=ex, expected=want_ex)
         if not full:
             return
+        # a query type related to some component classes only VIRTUALLY (an ABC they are registered with): whether
+        # such a relation counts is not fixed here - but the queries of one world must agree about it
+        V = self.virtual_base()
+        listed = collections.Counter(id(c) for (_e, c) in self.q(w.get, V)) if self.steps % 2 == 0 else None
+        for e in (ids[-10:] if listed is not None else ()):
+            has = bool(self.q(w.has_component, e, V))
+            g = self.q(w.get_component, e, V, sentinel)
+            row = self.attached.get(e, {})
+            in_get = any(id(c) in listed for c in row.values())
+            if has != (g is not sentinel) or has != in_get:
+                self.viol('queries_disagree_about_a_virtual_base_type', entity=repr(e), has_component=has,
+                          get_component_found=(g is not sentinel), listed_by_get=in_get)
         ents = self.q(lambda: w.entities)
         want_ents = [e for e, row in self.attached.items() if row and not self.is_pending(e)]
         # (ids are compared the way the World keys them: by hash and ==, so that 1, 1.0 and True are one id)
